@@ -489,7 +489,7 @@ func returnRows(c *Ctx, fn *ssa.Function) []siteRow {
 					for k := range ret.Results {
 						vals = append(vals, c.ExprOnEdge(retValue(ret, k), blk, pk))
 					}
-					conds := edgeGuards(c, p, blk)
+					conds := c.edgeConds(p, blk)
 					sort.Strings(conds)
 					emit(vals, uniq(conds))
 				}
@@ -526,6 +526,9 @@ func returnRows(c *Ctx, fn *ssa.Function) []siteRow {
 							}
 						}
 						conds := append([]string{}, vc.Guards...)
+						if vc.Conds != nil {
+							conds = append([]string{}, vc.Conds...)
+						}
 						sort.Strings(conds)
 						emit(vals, uniq(conds))
 					}
@@ -964,4 +967,52 @@ func parseOR(attr string) ([][]string, bool) {
 		}
 	}
 	return out, len(out) > 0
+}
+
+
+// edgeConds: the conditions under which control takes the edge pred→succ, as common literals plus an OR{…} over what
+// the alternatives differ in (the edge's counterpart of reachConds).
+func (c *Ctx) edgeConds(pred, succ *ssa.BasicBlock) []string {
+	alts := c.pathEdgeAlts(pred, succ)
+	if len(alts) == 0 || useDomGuards {
+		return edgeGuards(c, pred, succ)
+	}
+	alts = absorbAlts(alts)
+	if len(alts) == 0 {
+		return nil
+	}
+	cnt := map[string]int{}
+	for _, a := range alts {
+		for _, l := range uniq(append([]string{}, a...)) {
+			cnt[l]++
+		}
+	}
+	var out []string
+	for l, n := range cnt {
+		if n == len(alts) {
+			out = append(out, l)
+		}
+	}
+	sort.Strings(out)
+	var rests []string
+	trivial := false
+	for _, a := range alts {
+		var rest []string
+		for _, l := range a {
+			if cnt[l] != len(alts) {
+				rest = append(rest, l)
+			}
+		}
+		if len(rest) == 0 {
+			trivial = true
+		}
+		sort.Strings(rest)
+		rests = append(rests, "("+strings.Join(uniq(rest), " & ")+")")
+	}
+	sort.Strings(rests)
+	rests = uniq(rests)
+	if !trivial && len(rests) > 1 {
+		out = append(out, "OR{"+strings.Join(rests, " | ")+"}")
+	}
+	return out
 }
